@@ -668,7 +668,7 @@ func (s *c03State) step() bool {
 func c03(c *core.Ctx) {
 	selfCheckOracles()
 	maxOps := int(c.N(12, 40))
-	c.Section("sequences", c.N(20000, 300000), func(i int64, r *gen.Rand) {
+	c.Section("sequences", c.N(20000, 3000000), func(i int64, r *gen.Rand) {
 		s := &c03State{c: c, r: r}
 		switch r.Intn(4) {
 		case 0: // Build on a fresh message
